@@ -844,6 +844,54 @@ pub fn space_v() -> Vec<Vec<u8>> {
     v
 }
 
+// ---------------------------------------------------------------------------------------------
+// N: a loop whose body mixes pointer-moving sub-loops (scans), stationary sub-loops on the cells
+// reached afterwards, plain moves and I/O. After a scan the optimiser no longer knows which cell an
+// offset names: facts about the enclosing loop's condition, constants and clobbers must be dropped.
+
+pub const N_TOKENS_SMALL: &[&str] = &["<", ">", "[>]", "[<]", "[]", ".", "+", "[-]"];
+pub const N_TOKENS_FULL: &[&str] = &["<", ">", "[>]", "[<]", "[]", ".", "+", "[-]", "-", "[.]", "[>+<-]", ","];
+pub const N_PREFIXES: &[&str] = &["+>+", "+>+>+<", ",>,"];
+
+pub fn space_n(full: bool, f: &mut dyn FnMut(u64, &[u8])) -> u64 {
+    let (tokens, depth) = if full { (N_TOKENS_FULL, 5) } else { (N_TOKENS_SMALL, 5) };
+    let mut idx = 0u64;
+    let mut body: Vec<usize> = Vec::new();
+    fn emit(tokens: &[&str], body: &[usize], idx: &mut u64, f: &mut dyn FnMut(u64, &[u8])) {
+        for pre in N_PREFIXES {
+            for suffix in ["", "."] {
+                let mut p = pre.as_bytes().to_vec();
+                p.push(b'[');
+                for &t in body {
+                    p.extend_from_slice(tokens[t].as_bytes());
+                }
+                p.push(b']');
+                p.extend_from_slice(suffix.as_bytes());
+                f(*idx, &p);
+                *idx += 1;
+            }
+        }
+    }
+    fn rec(tokens: &[&str], left: usize, body: &mut Vec<usize>, idx: &mut u64, f: &mut dyn FnMut(u64, &[u8])) {
+        if left == 0 {
+            // only bodies with at least one pointer-moving sub-loop are interesting here
+            if body.iter().any(|&t| tokens[t] == "[>]" || tokens[t] == "[<]") {
+                emit(tokens, body, idx, f);
+            }
+            return;
+        }
+        for t in 0..tokens.len() {
+            body.push(t);
+            rec(tokens, left - 1, body, idx, f);
+            body.pop();
+        }
+    }
+    for n in 1..=depth {
+        rec(tokens, n, &mut body, &mut idx, f);
+    }
+    idx
+}
+
 /// K: the repository's own corpus, copied into /verif/corpus (name \t program per line).
 pub fn space_k() -> Vec<(String, Vec<u8>)> {
     let path = format!("{}/corpus/k_tests.txt", crate::verif_dir());
